@@ -157,16 +157,21 @@ type c12DashObs struct {
 	Src    string
 }
 
-func c12DashRun(cs *c12DashCase) (obs c12DashObs) {
+// c12DashDir makes the scratch directory all cases of the stream share (they only read; the oracle checks that nothing is written)
+func c12DashDir() string {
 	d, err := os.MkdirTemp("", "c12d_")
 	if err != nil {
 		panic(err)
 	}
-	defer os.RemoveAll(d)
 	os.WriteFile(d+"/in0", []byte("S_in0\n"), 0o644)
 	os.WriteFile(d+"/in1", []byte("S_in1\n"), 0o644)
 	os.Mkdir(d+"/dd", 0o755)
 	os.WriteFile(d+"/dd/-", []byte("S_dashfile\n"), 0o644)
+	os.WriteFile(d+"/stdin.txt", []byte(c12DashStdin), 0o644)
+	return d
+}
+
+func c12DashRun(cs *c12DashCase, d string) (obs c12DashObs) {
 	src := c12DashRender(cs)
 	obs.Src = src
 	var mu sync.Mutex
@@ -193,7 +198,6 @@ func c12DashRun(cs *c12DashCase) (obs c12DashObs) {
 	cfg := &interp.Config{Output: &out, Error: &errw, Environ: []string{}, Vars: vars, Args: args, Funcs: funcs,
 		NoExec: cs.NoExec, NoFileWrites: cs.NoWrites, NoFileReads: cs.NoReads}
 	if cs.StdinFile {
-		os.WriteFile(d+"/stdin.txt", []byte(c12DashStdin), 0o644)
 		f, _ := os.Open(d + "/stdin.txt")
 		defer f.Close()
 		cfg.Stdin = f
@@ -483,8 +487,15 @@ func runC12Dash(c *vh.Ctx, replay *c12DashCase) {
 		c.Note(fmt.Sprintf("stream dash: %d systematic cases (%d operand/ARGV shapes x 8 flag combinations x OpenFile present/absent x 9 getline-from-\"-\" placements), %d generated",
 			nCorpus, len(c12DashShapes), len(cases)-nCorpus))
 	}
+	d := c12DashDir()
+	before := c12List(d)
 	obs := make([]c12DashObs, len(cases))
-	vh.Parallel(len(cases), func(i int) { obs[i] = c12DashRun(&cases[i]) })
+	vh.Parallel(len(cases), func(i int) { obs[i] = c12DashRun(&cases[i], d) })
+	if after := c12List(d); len(c12MapDiff(before, after)) > 0 {
+		c.Fail(vh.Failure{Kind: "oracle", What: "stream dash: programs that only read changed files in the scratch directory", Case: "whole stream",
+			Got: strings.Join(c12MapDiff(before, after), ", ")})
+	}
+	os.RemoveAll(d)
 	for i := range cases {
 		cs := &cases[i]
 		key := fmt.Sprintf("dash|%v%v%v%v%v|%q|%v|%d|%s|%s|%v|%d", cs.NoExec, cs.NoWrites, cs.NoReads, cs.Hook, cs.StdinFile, cs.Args, cs.Edits, cs.Argc,
